@@ -21,3 +21,14 @@ Definition attempt_of (dial_ok : bool) (x : list out * result * persist) : attem
   | Ok => AOk (resumed_of (fst (fst x)))
   | Err c perm => AFail (c && perm) (negb (p_has_session (snd x)))
   end.
+
+(* What the resumption step leaves of the stream-management state the client held: the
+   second flag of [AFail] as far as that step decides it.  (attempt_of's flag speaks of the
+   Session OBJECT; at this step the object stays and the state inside it is what may go.) *)
+Definition state_lost (p0 : persist) (x : list out * result * persist) : bool :=
+  negb (str_eqb (p_sm_id (snd x)) (p_sm_id p0)).
+Definition resume_step_attempt (p0 : persist) (x : list out * result * persist) : attempt :=
+  match snd (fst x) with
+  | Ok => AOk (resumed_of (fst (fst x)))
+  | Err c perm => AFail (c && perm) (state_lost p0 x)
+  end.
